@@ -400,6 +400,112 @@ def rule_every_leaf_gates(ctx, cfg='prod-all', which=('pok', 'zkpok')):
                      body.span, fact={'accept_paths': len(aps), 'paths_without_gate': fails, 'type': ty}, expected='gates acceptance')
 
 
+# ---------------------------------------------------------------------------------- canonical representatives
+def _leaf_of(atom, kself, leaves):
+    """the serialised leaf path a parameter atom of `self` stands for (the atom may name a whole sub-structure: then every leaf below it)"""
+    st = strip(atom)
+    if st[0] != 'p' or st[1] != kself:
+        return []
+    q = tuple(x for x in st[2] if x != '0')
+    if not q:
+        return []
+    return [lp for lp in leaves if lp[:len(q)] == q or q[:len(lp)] == lp]
+
+
+
+REPRESENTATIVE_SPECS = {
+    'C13': [(SIGI + 'verify', 'cl03::signature::CL03Signature'), (SIGI + 'verify_multiattr', 'cl03::signature::CL03Signature')],
+    'C14': [(ZKI + 'verify_proof', 'cl03::proof::CL03ZKPoK')],
+    'C15': [(POKI + 'proof_verify', 'cl03::proof::CL03PoKSignature')],
+    'C16': [(RP + 'verify', 'cl03::range_proof::Boudot2000RangeProof')],
+}
+
+
+def _crosses_vec(prog, root, lp):
+    """is the leaf an element (or part of an element) of a list field?"""
+    tname = root
+    for f in lp:
+        adt = prog.adts.get(tname)
+        if adt is None:
+            return False
+        ty = None
+        for v in adt['variants']:
+            for fl in v['fields']:
+                if fl['name'] == f:
+                    ty = fl['ty']
+        if ty is None:
+            return False
+        if 'std::vec::Vec<' in ty:
+            return True
+        while ty.startswith('std::option::Option<'):
+            ty = ty[len('std::option::Option<'):-1]
+        tname = ty
+    return False
+
+
+def rule_canonical_representatives(ctx, specs, cfg='prod-all', rule='RF-K', skip=()):
+    """A transmitted integer that stands for a residue class (it only ever enters `pow_mod` bases, `% n`, inversions) can be replaced by
+    any other representative (x + k*n) unless the verifier also looks at the integer itself.  Per leaf x of the proof / signature type and per
+    accept path: x is *pinned* when some comparison every path to the accept passes depends on the representative of x -
+      . through anything but ring operations (an exponent, a digest input, a conversion: the value compared changes with the representative), or
+      . through ring operations only (an equality or order test of a polynomial in x) while every other leaf the same test sees that way is
+        pinned already (two unpinned leaves compared with each other can be shifted together).
+    Decided with the dependence engine that labels each dependence R / N / M / H (dep.label_of).  A leaf that no comparison sees except
+    reduced modulo something is reported: its other representatives verify as well."""
+    from dep import label_of
+    prog, ga = ctx.prog(cfg), ctx.gates_modular(cfg)
+    n_leaves = 0
+    for vsuffix, root in specs:
+        body = resolve_fn(prog, vsuffix)
+        kself = body.param_index('self')
+        aps = ga.accept_paths(body.path)
+        leaves = [lp for lp, adt, field, ty in leaf_paths(prog, root) if ty.endswith('rug::Integer') and (adt, field) not in OPENINGS and '.'.join(lp) not in skip]
+        per_element = {lp for lp in leaves if _crosses_vec(prog, root, lp)}
+        if not aps:
+            yield Ob(rule, '%s#accept-sites' % body.path, False, 'no accept site found in verifier', body.span, fact=0, expected='>=1')
+            continue
+        unpinned = {}
+        for ap in aps:
+            pinned = set()
+            views = []      # per comparison: the leaves it sees through ring operations only
+            for g in ap['gates']:
+                if g.kind == 'deleg' or not gate_is_comparison(g):
+                    continue
+                ring = set()
+                for a in g.all_atoms():
+                    lab = label_of(a)
+                    if lab == 'M':
+                        continue
+                    for lp in _leaf_of(a, kself, leaves):
+                        if not g.dom and lp not in per_element:
+                            continue      # a test on only some of the paths to the accept site (elements of a list are tested inside the loop over the list)
+                        if lab == 'R':
+                            ring.add(lp)
+                        else:
+                            pinned.add(lp)      # an exponent, a digest input, a conversion: another representative changes the value compared
+                if ring:
+                    views.append(ring)
+            # a ring expression: x + k*n can be compensated by shifting another leaf of the same expression, unless that one is pinned
+            changed = True
+            while changed:
+                changed = False
+                for ring in views:
+                    rest = ring - pinned
+                    if len(rest) == 1:
+                        pinned |= rest
+                        changed = True
+            for lp in leaves:
+                if lp not in pinned:
+                    unpinned.setdefault(lp, []).append(ap['block'])
+        for lp in leaves:
+            n_leaves += 1
+            bad = unpinned.get(lp, [])
+            yield Ob(rule, '%s#representative:%s' % (body.path, '.'.join(lp)), not bad,
+                     'some comparison every accept path passes depends on the transmitted integer itself, not only on its residue (otherwise x + k*n verifies as well)',
+                     body.span, fact={'accept_paths': len(aps), 'paths_where_only_the_residue_is_tested': bad[:6]}, expected='pinned')
+    yield Ob(rule, 'crate#representative-leaves', n_leaves >= 1, 'integer leaves examined', '', fact=n_leaves, expected='>= 1', nontrivial=False)
+
+
 # ---------------------------------------------------------------------------------- C15 challenge ingredients
 def _is_hash_helper(eng, tgt, _depth=0):
     """a local function that only hashes what it is given: it feeds a digest (digest / update + finalize) and each of its value parameters may
